@@ -84,7 +84,7 @@ def make_fn(name, src):
 
 
 # ---------------------------------------------------------------- edge set under in-service flags, switches and options
-FLAGS = ["sw_line0_at_b1_closed", "sw_trafo0_closed", "sw_trafo3w0_at_mv_closed", "sw_bus3_bus6_closed", "sw_line1_at_b3_closed",
+FLAGS = ["sw_line0_at_b1_closed", "sw_trafo0_closed", "sw_trafo3w0_at_mv_closed", "sw_trafo3w1_at_hv_closed", "sw_bus3_bus6_closed", "sw_line1_at_b3_closed",
          "line0_in_service", "trafo0_in_service", "trafo3w0_in_service", "bus3_in_service", "impedance0_in_service", "sw_trafo3w0_at_hv_closed"]
 
 
@@ -95,6 +95,7 @@ def _flag_net():
         pp.create_ext_grid(net, b[0])
         pp.create_transformer_from_parameters(net, b[0], b[1], 40, 110, 20, 0.3, 12, 20, 0.05)
         pp.create_transformer3w_from_parameters(net, b[0], b[2], b[4], 110, 20, 10, 40, 20, 20, 10, 10, 10, 0.3, 0.3, 0.3, 20, 0.05)
+        pp.create_transformer3w_from_parameters(net, b[0], b[3], b[5], 110, 20, 10, 40, 20, 20, 10, 10, 10, 0.3, 0.3, 0.3, 20, 0.05)   # shares the hv bus
         pp.create_line_from_parameters(net, b[1], b[2], 1.5, 0.1, 0.1, 10, 1.)
         pp.create_line_from_parameters(net, b[2], b[3], 2.5, 0.1, 0.1, 10, 1.)
         pp.create_line_from_parameters(net, b[4], b[5], 0.7, 0.1, 0.1, 10, 1.)
@@ -105,6 +106,7 @@ def _flag_net():
         pp.create_switch(net, b[3], b[6], "b")
         pp.create_switch(net, b[3], 1, "l")
         pp.create_switch(net, b[0], 0, "t3")
+        pp.create_switch(net, b[0], 1, "t3")
         _cache["flags"] = net
     return _cache["flags"]
 
@@ -128,7 +130,7 @@ def make_flags(nflags, respect_switches=True, options=None):
             F[nm] = (ctx.var(nm, 0., 1.) >= 0.5) if k < nflags else True
         D = {nm: bool(v) for nm, v in F.items()}          # forks
         net.switch["closed"] = [D["sw_line0_at_b1_closed"], D["sw_trafo0_closed"], D["sw_trafo3w0_at_mv_closed"], D["sw_bus3_bus6_closed"],
-                                D["sw_line1_at_b3_closed"], D["sw_trafo3w0_at_hv_closed"]]
+                                D["sw_line1_at_b3_closed"], D["sw_trafo3w0_at_hv_closed"], D["sw_trafo3w1_at_hv_closed"]]
         net.line.loc[0, "in_service"] = D["line0_in_service"]
         net.trafo.loc[0, "in_service"] = D["trafo0_in_service"]
         net.trafo3w.loc[0, "in_service"] = D["trafo3w0_in_service"]
@@ -156,6 +158,9 @@ def make_flags(nflags, respect_switches=True, options=None):
             (0, 2, ("trafo3w", 0)): t3 & closed("sw_trafo3w0_at_mv_closed") & closed("sw_trafo3w0_at_hv_closed"),
             (0, 4, ("trafo3w", 0)): t3 & closed("sw_trafo3w0_at_hv_closed"),
             (2, 4, ("trafo3w", 0)): t3 & closed("sw_trafo3w0_at_mv_closed"),
+            (0, 3, ("trafo3w", 1)): closed("sw_trafo3w1_at_hv_closed") if included("include_trafo3ws", 1) else False,
+            (0, 5, ("trafo3w", 1)): closed("sw_trafo3w1_at_hv_closed") if included("include_trafo3ws", 1) else False,
+            (3, 5, ("trafo3w", 1)): True if included("include_trafo3ws", 1) else False,
             (1, 3, ("impedance", 0)): ins("impedance0_in_service") if included("include_impedances", 0) else False,
             (3, 6, ("switch", 3)): closed("sw_bus3_bus6_closed") if options.get("include_switches", True) else False,
         }
@@ -221,8 +226,8 @@ def g_weights(g, f, t):
 
 def instances(tier):
     out = [Inst(f"{n}_from0", make_fn(n, 0), nvars=12, samples=3, max_paths=5000, meta=dict(topology=n, source=0)) for n in TOPOS]
-    nf = 8 if tier == "quick" else len(FLAGS)
-    out += [Inst("edges_respect_switches", make_flags(nf, True), nvars=14, samples=6, max_paths=5000, meta=dict(part="edges", respect_switches=True, flags=nf)),
+    nf = 8 if tier == "quick" else 10
+    out += [Inst("edges_respect_switches", make_flags(nf, True), nvars=16, samples=6, max_paths=5000, meta=dict(part="edges", respect_switches=True, flags=nf)),
             Inst("edges_ignore_switches", make_flags(min(nf, 9), False), nvars=14, samples=6, max_paths=5000, meta=dict(part="edges", respect_switches=False, flags=min(nf, 9)))]
     opts = {"nogobus2": dict(nogobuses=[2]), "notravbus2": dict(notravbuses=[2]), "no_trafos": dict(include_trafos=False),
             "only_line1_no_trafo3w": dict(include_lines=[1], include_trafo3ws=False), "out_of_service_included": dict(include_out_of_service=True),
